@@ -51,6 +51,9 @@ def forbidden_hits(lean_dir, roots):
             if FORBIDDEN.search(l): hits.append("%s:%d: %s" % (os.path.relpath(p, lean_dir), i + 1, l.strip()[:80]))
     return hits
 
+# theorem modules that serve a second property as well (still only when registered)
+ALSO = {"C20": ["C03b", "C18d"], "C08": ["C15b"], "C10": ["C06b"], "C13": ["C10b"], "C12": ["C14b"], "C04": ["C05c"]}
+
 def property_modules(prop, lean_dir):
     """Properties/Cxx.lean plus companion modules Properties/Cxx<letters>.lean (e.g. C02P, C05b) —
     only those registered in the root module lean/PoryProofs.lean (work in progress is not)."""
@@ -58,8 +61,8 @@ def property_modules(prop, lean_dir):
     out = []
     if os.path.exists(root):
         for m in re.findall(r"^import\s+PoryProofs\.Properties\.(\S+)", open(root, encoding="utf-8").read(), re.M):
-            if re.match(r"^%s[A-Za-z]*$" % re.escape(prop), m): out.append(m)
-    return sorted(out)
+            if re.match(r"^%s[A-Za-z]*$" % re.escape(prop), m) or m in ALSO.get(prop, []): out.append(m)
+    return sorted(set(out))
 
 def check_proofs(prop, lean_dir, sh, thorough=False):
     mods = property_modules(prop, lean_dir)
